@@ -23,3 +23,4 @@ def rules(ctx):
     S.refcount_rules(ctx)
     S.c07_rules(ctx)
     S.c11_rules(ctx)
+    S.tracker_state_rules(ctx)
